@@ -34,7 +34,7 @@ struct Sched {   // producer / consumer schedule
 
 struct EncSetup {
   int ch = 2; long rate = 44100; int how = 0;     // 0 init_vbr, 1 init(avg only), 2 init(max,nom,min), 3 init(cbr), 4 setup_vbr+setup_init, 5 setup_managed+ctl+setup_init
-  double q = 0.4; long nom = 128000, mx = -1, mn = -1; long reservoir = -1; double bias = -1000; /* unset */ int ctl = 0;
+  double q = 0.4; long nom = 128000, mx = -1, mn = -1; long reservoir = -1; double bias = -1000; /* unset */ double window = 2.0; int ctl = 0;
 };
 
 struct EncRun {
@@ -43,7 +43,7 @@ struct EncRun {
   [[noreturn]] void fail(const std::string &site, const std::string &sym, const std::string &detail, std::map<std::string, std::string> facts = {}) { SimViolation v; v.prop = prop; v.cls = prop + "/" + site + "/" + sym; v.detail = detail; v.facts = facts; throw v; }
   void check(bool c, const std::string &site, const std::string &sym, const std::string &detail, std::map<std::string, std::string> facts = {}) { if (!c) fail(site, sym, detail, facts); }
 
-  static EncSetup setup_from(const Rec &r) { EncSetup e; e.ch = (int)r.i("ch", 2); e.rate = r.i("rate", 44100); e.how = (int)r.i("how", 0); e.q = r.f("q", 0.4); e.nom = r.i("nom", 128000); e.mx = r.i("max", -1); e.mn = r.i("min", -1); e.reservoir = r.i("resv", -1); e.bias = r.f("bias", -1000); e.ctl = (int)r.i("ctl", 0); return e; }
+  static EncSetup setup_from(const Rec &r) { EncSetup e; e.ch = (int)r.i("ch", 2); e.rate = r.i("rate", 44100); e.how = (int)r.i("how", 0); e.q = r.f("q", 0.4); e.nom = r.i("nom", 128000); e.mx = r.i("max", -1); e.mn = r.i("min", -1); e.reservoir = r.i("resv", -1); e.bias = r.f("bias", -1000); e.ctl = (int)r.i("ctl", 0); e.window = r.f("window", 2.0); return e; }
 
   // returns the library's return code; vi is initialised (vorbis_info_init) in any case
   int do_setup(vorbis_info &vi, const EncSetup &e, struct ovectl_ratemanage2_arg *rm_out) {
@@ -56,6 +56,17 @@ struct EncRun {
       case 4: ret = vorbis_encode_setup_vbr(&vi, e.ch, e.rate, (float)e.q);
               if (!ret && e.ctl) { double lp = 15. + (double)(e.ctl % 7); int c1 = vorbis_encode_ctl(&vi, OV_ECTL_LOWPASS_SET, &lp); h.i64(c1); int cp = e.ctl & 1; vorbis_encode_ctl(&vi, OV_ECTL_COUPLING_SET, &cp); double ib = -5.0 - (e.ctl % 9); vorbis_encode_ctl(&vi, OV_ECTL_IBLOCK_SET, &ib); }
               if (!ret) ret = vorbis_encode_setup_init(&vi); break;
+      case 6: {   // the deprecated control interface: hard limits and a window in seconds (reservoir = window * mean of the limits; no validation at all)
+        ret = vorbis_encode_setup_managed(&vi, e.ch, e.rate, e.mx, e.nom, e.mn);
+        if (!ret) {
+          struct ovectl_ratemanage_arg ra; memset(&ra, 0, sizeof ra); int g0 = vorbis_encode_ctl(&vi, OV_ECTL_RATEMANAGE_GET, &ra); h.i64(g0);
+          ra.management_active = 1; if (e.mx > 0) ra.bitrate_hard_max = e.mx; if (e.mn > 0) ra.bitrate_hard_min = e.mn; ra.bitrate_hard_window = e.window;
+          int s = vorbis_encode_ctl(&vi, (e.ctl & 1) ? OV_ECTL_RATEMANAGE_SET : OV_ECTL_RATEMANAGE_HARD, &ra); h.i64(s);
+          struct ovectl_ratemanage2_arg rm; memset(&rm, 0, sizeof rm); vorbis_encode_ctl(&vi, OV_ECTL_RATEMANAGE2_GET, &rm); if (rm_out) *rm_out = rm;
+          g_stats.inc("probe.deprecated_ratemanage_interface");
+          ret = vorbis_encode_setup_init(&vi);
+        }
+        break; }
       default: {
         ret = vorbis_encode_setup_managed(&vi, e.ch, e.rate, e.mx, e.nom, e.mn);
         if (!ret) {
@@ -197,7 +208,7 @@ struct EncRun {
   // ---------------------------------------------------------------- C14
   void run_rate() {
     const Rec *er = plan.first("enc"); if (!er) return;
-    EncSetup es = setup_from(*er); if (es.how != 2 && es.how != 3) es.how = 5; Recipe sigr; sigr.ch = std::min(es.ch, 8); sigr.rate = es.rate; sigr.sig = (int)er->i("sig", 0); sigr.seed = er->u("seed", 1);
+    EncSetup es = setup_from(*er); if (es.how != 2 && es.how != 3 && es.how != 6) es.how = 5; Recipe sigr; sigr.ch = std::min(es.ch, 8); sigr.rate = es.rate; sigr.sig = (int)er->i("sig", 0); sigr.seed = er->u("seed", 1);
     int64_t N = er->i("n", 100000); bool stub = er->i("stub", 0) != 0; int pat = (int)er->i("pat", 0);
     Sched s; s.part = 1; s.pk = 2048;
     struct ovectl_ratemanage2_arg rm; memset(&rm, 0, sizeof rm);
@@ -209,7 +220,7 @@ struct EncRun {
     if (rm.management_active) { check(rm.bitrate_limit_max_kbps == (long)(maxr / 1000) || maxr == 0, "ctl", "ratemanage2-get-disagrees", fmt("GET max %ld kbps, in force %.0f bps", rm.bitrate_limit_max_kbps, maxr)); }
     h.i64(rm.bitrate_limit_max_kbps); h.i64(rm.bitrate_limit_min_kbps); h.i64(rm.bitrate_limit_reservoir_bits);
     // a hard limit handed to the set-up call and accepted must be in force afterwards (kbit/s granularity of the interfaces)
-    if (es.how == 2 || es.how == 3) { long rq_max = es.how == 3 ? es.nom : es.mx, rq_min = es.how == 3 ? es.nom : es.mn;
+    if (es.how == 2 || es.how == 3 || es.how == 6) { long rq_max = es.how == 3 ? es.nom : es.mx, rq_min = es.how == 3 ? es.nom : es.mn;
       if (rq_max > 0) check(maxr > 0 && fabs(maxr - (double)rq_max) < 1000.5, "setup", "hard-maximum-not-in-force", fmt("requested max %ld bit/s, in force %.0f", rq_max, maxr));
       if (rq_min > 0) check(minr > 0 && fabs(minr - (double)rq_min) < 1000.5, "setup", "hard-minimum-not-in-force", fmt("requested min %ld bit/s, in force %.0f", rq_min, minr)); }
     if (!eo.managed || (maxr == 0 && minr == 0)) { g_stats.inc("rate.no_hard_limit_configured"); return; }
@@ -342,7 +353,8 @@ struct EncGen {
       double u = g.unit(); e.set("resv", u < 0.2 ? (int64_t)g.range(0, 4000) : u < 0.6 ? (int64_t)g.range(4000, 60000) : (int64_t)g.range(60000, 2 * nom)).setf("bias", g.chance(0.2) ? (g.chance(0.5) ? 0.0 : 1.0) : g.unit());
       if (g.chance(0.12)) { static const int64_t tiny[] = {0, 1, 8, 64, 128, 512, 1024}; e.set("resv", tiny[g.below(7)]); }
       if (g.chance(0.05)) { static const double ob[] = {-1.0, -0.01, 1.01, 2.0}; e.setf("bias", ob[g.below(4)]); }   // outside [0,1]: the control interface has to refuse it (whatever it accepts, the limits in force must hold)
-      if (g.chance(0.25)) { e.set("how", lim == 3 ? 3 : 2); e.erase("resv"); e.erase("bias"); if (lim == 3 && e.i("nom") <= 0) e.set("nom", nom); }   // limits handed straight to vorbis_encode_init, default reservoir
+      if (g.chance(0.12) && e.i("nom") > 0) { static const double win[] = {0.0, 1e-5, 0.001, 0.02, 0.2, 1.0, 3.0}; e.set("how", 6).setf("window", win[g.below(7)]).set("ctl", (int64_t)g.below(2)); e.erase("resv"); e.erase("bias"); }
+      else if (g.chance(0.25)) { e.set("how", lim == 3 ? 3 : 2); e.erase("resv"); e.erase("bias"); if (lim == 3 && e.i("nom") <= 0) e.set("nom", nom); }   // limits handed straight to vorbis_encode_init, default reservoir
       bool stub = g.chance(0.5); e.set("stub", stub ? 1 : 0);
       if (stub) { e.set("pat", (int64_t)g.below(5)).setu("stubseed", g.below(100000)).set("sig", g.chance(0.5) ? 2 : 3).set("n", (int64_t)g.range(rate * 2, rate * (thorough ? 40 : 12))); }
       else e.set("sig", (int64_t)(g.chance(0.4) ? 3 : g.below(6))).set("n", (int64_t)g.range(rate * 2, rate * (thorough ? 8 : 4)) / (ch > 2 ? 3 : 1));
